@@ -33,6 +33,8 @@ QUICK = [
     ("moddef", {"Fam": "<- FamModDef", "LitPool": "<- Lits2", "Names": "<- Names2", "BinOps": "<- Ops2",
                 "FldNames": "<- Flds2", "MaxN": "5", "MaxStk": "2", "MaxCtx": "2", "MaxStmts": "2",
                 "MaxModStmts": "1"}, None),
+    ("dotuse", {"Fam": "<- FamDotUse", "LitPool": "<- Lits2", "Names": "<- Names1", "BinOps": "<- Ops2",
+                "Prelude": "<- PreDot", "MaxN": "4", "MaxStk": "3", "MaxStmts": "1"}, None),
     ("sim", {"Fam": "<- FamSim", "LitPool": "<- LitsMix", "Names": "<- NamesTop", "BinOps": "<- OpsAll",
              "Prelude": "<- PreSim", "MaxN": "9", "MaxD": "5", "MaxStk": "4", "MaxCtx": "3", "MaxStmts": "4",
              "MaxModStmts": "2", "Ill0": "1"}, (1500, 70)),
